@@ -478,10 +478,30 @@ def _puts(*specs):
     return [{"at_msg": j, "plus": p, "do": "put", "sig": s, "value": v} for (j, p, s, v) in specs]
 
 
+def _plan_nonrewindable_region():
+    """Events emitted while the plan is marked non-rewindable, then cached work without a checkpoint."""
+    return SEQ(
+        M("open_run"),
+        M("checkpoint"),
+        *_pt("d1", "primary"),
+        M("rewindable", None, False),
+        *_pt("d1", "primary", g="g2"),
+        *_pt("d2", "aux", g="g3"),
+        M("rewindable", None, True),
+        M("null", None, "after-nr"),
+        M("sleep", None, 0.1),
+        *_pt("d1", "primary", g="g4"),
+        M("checkpoint"),
+        *_pt("d2", "aux", g="g5"),
+        M("close_run"),
+    )
+
+
 SWEEP = {
     # name: (plan, record_interruptions, put injections of the call stage, put injections of the resume stage)
     "mon_int": (_plan_mon_int, True, _puts((4, 1, "s1", 2.0), (9, 0, "s1", 3.0), (15, 2, "s1", 4.0)), _puts((3, 0, "s1", 9.0))),
     "fly_assets": (_plan_fly_assets, False, [], []),
+    "nonrewindable_region": (_plan_nonrewindable_region, True, [], []),
     "pages_steps": (_plan_pages_steps, True, [], []),
     "two_runs": (_plan_two_runs, True, _puts((6, 0, "s1", 2.0), (8, 1, "s2", 6.0), (14, 0, "s1", 3.0), (16, 0, "s2", 7.0)), _puts((2, 0, "s2", 8.0))),
 }
@@ -600,7 +620,7 @@ def cases():
         sigs = choice([[], ["s1"], ["s1"], ["s1", "s2"]])
         nitems = draw(st.integers(2, 9))
         for _ in range(nitems):
-            opts = ["ck", "ck", "pt", "pt", "pt", "pt", "null"]
+            opts = ["ck", "ck", "pt", "pt", "pt", "pt", "null", "nr"]
             if sigs:
                 opts += ["mon", "mon"]
             if flyers:
@@ -617,6 +637,20 @@ def cases():
                 which = choice(["d1", "d1", "d2", "x4"]) if rk == main else choice(["d1", "d2"])
                 stream = {"d1": "primary", "d2": "aux", "x4": "steps"}[which] + (str(rk) if two else "")
                 nodes += _pt(which, stream, ck=chance(0.4), run=rk, g=group())
+            elif o == "nr":
+                # a non-rewindable region that emits events, followed by cached work without a checkpoint
+                rk = main
+                nodes.append(M("rewindable", None, False))
+                for _ in range(draw(st.integers(0, 2))):
+                    which = choice(["d1", "d2"])
+                    nodes += _pt(which, {"d1": "primary", "d2": "aux"}[which] + (str(rk) if two else ""), ck=False, run=rk, g=group())
+                nodes.append(M("rewindable", None, True))
+                nodes.append(M("null", None, "after-nr"))
+                if chance(0.5):
+                    nodes.append(M("sleep", None, 0.1))
+                if chance(0.5):
+                    which = choice(["d1", "d2"])
+                    nodes += _pt(which, {"d1": "primary", "d2": "aux"}[which] + (str(rk) if two else ""), ck=False, run=rk, g=group())
             elif o == "mon":
                 free = [s for s in sigs if s not in monitored]
                 if free and (not monitored or chance(0.6)):
@@ -676,6 +710,12 @@ def cases():
             }
 
         stages = [{"do": "call", "inj": [interruption()]}]
+        n_rw = sum(1 for n in nodes if n[0] == "msg" and n[1] == "rewindable")
+        if n_rw and chance(0.6):
+            # aim the request at the messages around a rewindability toggle
+            ij = stages[0]["inj"][0]
+            ij.pop("at_msg")
+            ij.update(at_cmd="rewindable", nth=draw(st.integers(1, n_rw)), plus_msgs=draw(st.integers(0, 5)))
         if sigs:
             for _ in range(draw(st.integers(0, 4))):
                 stages[0]["inj"].append(put())
@@ -743,7 +783,7 @@ def run(ctx):
     cases_ += list(double_rewind_cases(ctx.pick(2, 1), ctx.pick((1, 4, 8, 12), tuple(range(0, 16)))))
     ctx.sweep(cases_, check_case)
     ctx.extra["sweep_cases"] = len(cases_)
-    ctx.bound = "pause+resume, 2 suspend variants, pause+stop, pause+abort, suspend+foreign stop at every %scallback boundary of the 4 sweep plans" % ("fourth " if ctx.quick else "")
+    ctx.bound = "pause+resume, 2 suspend variants, pause+stop, pause+abort, suspend+foreign stop at every %scallback boundary of the 5 sweep plans" % ("fourth " if ctx.quick else "")
     ctx.hyp(cases, check_case, max_examples=ctx.pick(1200, 30000), tag="c05")
 
 
